@@ -181,6 +181,10 @@ func TestVerifC09LMTP(t *testing.T) {
 				}
 				tx.Faults[key] = rapid.SampledFrom([]string{"T", "P"}).Draw(t, "class")
 			}
+			if sc.LMTP && rapid.IntRange(0, 4).Draw(t, "dropafter?") == 0 {
+				// the next hop dies after answering for this many recipients
+				tx.Faults["dropafter"] = fmt.Sprint(rapid.IntRange(0, len(tx.Rcpts)-1).Draw(t, "dropafter"))
+			}
 			sc.Txs = append(sc.Txs, tx)
 		}
 		return sc
